@@ -246,6 +246,8 @@ IMPORT_SHAPES = {
     "tryimport": "from inline_snapshot import snapshot\ntry:\n    import json\nexcept ImportError:\n    json = None\n",
     "commentfirst": "# first line cömment\n\nimport os\nfrom inline_snapshot import snapshot\nx = (1,\n     2)\n",
     "twoon1": "import os, sys; from inline_snapshot import snapshot\n",
+    "localimport": "from inline_snapshot import snapshot\n\n\ndef local_user():\n    from inline_snapshot import HasRepr, external\n    return HasRepr, external\n",
+    "classimport": "from inline_snapshot import snapshot\n\n\nclass Holder:\n    from inline_snapshot import HasRepr, external\n",
 }
 
 
@@ -281,12 +283,15 @@ def _judge_imported(c):
     d = plugin.mk_project(dict({"test_something.py": src, "pyproject.toml": ""}, **store))
     try:
         r = plugin.session(d, ["--inline-snapshot=" + ",".join(c["F"])])
-        after = plugin.listing(d, text=True)["test_something.py"]
+        lst = plugin.listing(d, text=True)
+        after = lst["test_something.py"]
     finally:
         plugin.cleanup()
     ctx = {"src": src, "after": after, "changed": after != src}
     if plugin.internal_error(r["out"]) or r["rc"] not in (0, 1):
         return ("internal-error", "rc=%s %s" % (r["rc"], r["out"][-700:])), ctx
+    if "ext" in c["names"] and not all(k in lst for k in store):
+        return ("referenced-external-removed", "approved %s: the file still references the external, storage now %s" % (c["F"], sorted(k for k in lst if "external/" in k))), ctx
     if "snapshot(2)" not in after or "snapshot([1, 5])" not in after:
         return ("approved-change-not-applied", after[-300:]), ctx
     # everything outside the two fixed arguments must be byte-identical: in particular no import may be added
@@ -302,7 +307,7 @@ def _plugin_cases(tier):
     cases = []
     for shape in IMPORTED:
         for which in (["hasrepr"], ["ext"], ["hasrepr", "ext"]):
-            for F in (["fix"], list(CATS)):
+            for F in (["fix"], list(CATS), ["fix", "trim"]):
                 cases.append({"kind": "imported", "shape": shape, "names": which, "F": F})
     for shape in IMPORT_SHAPES:
         for site in ("hasrepr", "ext"):
@@ -420,14 +425,15 @@ def _judge_plugin(c):
                                     env={"LC_ALL": "C", "LANG": "C", "PYTHONUTF8": "0", "PYTHONCOERCECLOCALE": "0", "PYTHONIOENCODING": "utf-8"})
         else:
             r = plugin.session(d, ["--inline-snapshot=" + ",".join(c["F"])])
-        raw = plugin.listing(d)["test_something.py"]
+        full_listing = plugin.listing(d)
+        raw = full_listing["test_something.py"]
     finally:
         plugin.cleanup()
     try:
         after = raw.decode(codec)
     except UnicodeDecodeError as e:
         return ("file-no-longer-in-its-declared-encoding", "%s: %s" % (codec, e)), {"src": src, "after": repr(raw[-300:])}
-    ctx = {"src": src, "after": after}
+    ctx = {"src": src, "after": after, "listing": full_listing}
     if c["kind"] == "encoding" and c["enc"] == "bom" and not raw.startswith(b"\xef\xbb\xbf"):
         return ("text-outside-snapshot-arguments-changed", "the byte order mark at the start of the file is gone"), ctx
     if c["kind"] == "encoding" and not c["F"] and raw != src.encode(codec):
@@ -459,8 +465,9 @@ def _judge_plugin(c):
     if v is None and c["kind"] == "import":
         for name in allow:
             stmt = "from inline_snapshot import %s" % name
-            if after.count(stmt) != 1:
-                v = ("import-not-inserted-exactly-once", "%s occurs %d times" % (stmt, after.count(stmt)))
+            n_top = sum(1 for ln in after.splitlines() if ln == stmt)  # module-level statements added by the rewrite
+            if n_top != 1:
+                v = ("import-not-inserted-exactly-once", "%s occurs %d times at module level" % (stmt, n_top))
         if v is None:
             from ..drivers.inline import reexec
 
@@ -469,6 +476,16 @@ def _judge_plugin(c):
                 compile(after, "x", "exec")
             except SyntaxError as e:
                 v = ("result-not-valid-python", str(e))
+            if v is None and "create" in c["F"]:
+                # and run: a second session with inline-snapshot disabled must pass (every needed name is bound at module level)
+                store = {k: b for k, b in ctx.get("listing", {}).items() if k.startswith(".inline-snapshot/")}
+                d2 = plugin.mk_project(dict({"test_something.py": after, "pyproject.toml": pp}, **store))
+                try:
+                    r2 = plugin.session(d2, ["--inline-snapshot=disable"])
+                finally:
+                    plugin.cleanup()
+                if r2["rc"] != 0 and "NameError" in r2["out"]:
+                    v = ("generated-name-not-importable", r2["out"][-500:])
     ctx["changed"] = after != src
     return v, ctx
 
